@@ -146,3 +146,13 @@ func VerifOMapCheck(o *Object) string {
 	}
 	return ""
 }
+
+// VerifDumpProgram renders the compiled code of a Program (development aid for triaging compiler findings).
+func VerifDumpProgram(p *Program) string {
+	var sb []byte
+	p.dumpCode(func(format string, args ...interface{}) {
+		sb = append(sb, fmt.Sprintf(format, args...)...)
+		sb = append(sb, '\n')
+	})
+	return string(sb)
+}
